@@ -116,17 +116,17 @@ theorem lineLoop_safe (mode : Mode) (accept : Bytes) : ∀ (fuel : Nat) (st : St
 def RdSafe (av : Bytes) : R (St × Bytes) → Prop
   | R.oob => False
   | R.rej => True
-  | R.ok (st', av') => av'.length ≤ av.length ∧
+  | R.ok (st', av') => (av'.length ≤ av.length ∧ (av ≠ [] → av'.length < av.length)) ∧
       (HsSafe st' ∨ (FrPre st' st'.rdHeader ∧ st'.rdHeader.length < fsCap))
 
 /-- `coap_ws_rd_http_header` stays inside `http_hdr[160]` and `rd_header[14]` for all bytes -/
-theorem rdHttpHeader_safe (mode : Mode) (accept : Bytes) : ∀ (fuel : Nat) (st : St) (av : Bytes), HsSafe st →
-    RdSafe av (rdHttpHeader mode accept fuel st av) := by
+theorem rdHttpHeader_safe (mode : Mode) (accept : Bytes) : ∀ (fuel : Nat) (st : St) (av : Bytes), av.length < fuel →
+    HsSafe st → RdSafe av (rdHttpHeader mode accept fuel st av) := by
   intro fuel
   induction fuel with
-  | zero => intro st av h; exact ⟨Nat.le_refl _, Or.inl h⟩
+  | zero => intro st av h; exact False.elim (by omega)
   | succ f ih =>
-    intro st av hs
+    intro st av hfuel hs
     obtain ⟨hup, hlf, hlen, hrd, hall, hrx⟩ := hs
     obtain ⟨up, H, seen, rdHeader, allHdrIn, maskKey, dataOfs, dataSize, rxData⟩ := st
     simp only at hup hlf hlen hrd hall hrx
@@ -138,7 +138,10 @@ theorem rdHttpHeader_safe (mode : Mode) (accept : Bytes) : ∀ (fuel : Nat) (st 
     · simp only [rdHttpHeader, hrem, if_pos h0, Bool.false_eq_true, if_false]; trivial
     · by_cases hg : (av.take rem).length = 0
       · simp only [rdHttpHeader, hrem, if_neg h0, if_pos hg, Bool.false_eq_true, if_false]
-        exact ⟨Nat.le_refl _, Or.inl ⟨rfl, hlf, hlen, rfl, rfl, rfl⟩⟩
+        have hav : av = [] := by
+          rw [List.length_take] at hg
+          exact List.length_eq_zero_iff.mp (by omega)
+        exact ⟨⟨Nat.le_refl _, fun hne => absurd hav hne⟩, Or.inl ⟨rfl, hlf, hlen, rfl, rfl, rfl⟩⟩
       · have hgl : (av.take rem).length ≤ rem := by rw [List.length_take]; omega
         have hbuf : ¬ (H ++ av.take rem).length ≥ httpCap := by
           rw [List.length_append]; simp only [httpCap] at *; omega
@@ -150,24 +153,26 @@ theorem rdHttpHeader_safe (mode : Mode) (accept : Bytes) : ∀ (fuel : Nat) (st 
             simp only [List.length_append]; omega)
         generalize lineLoop mode accept ((H ++ av.take rem).length + 1)
           ⟨false, H ++ av.take rem, seen, [], false, maskKey, dataOfs, dataSize, none⟩ = res at hsafe
-        have hdl : (av.drop rem).length ≤ av.length := by rw [List.length_drop]; omega
+        have hdl : (av.drop rem).length < av.length := by
+          rw [List.length_take] at hg
+          rw [List.length_drop]; omega
         cases res with
         | oob => exact hsafe
         | fail => trivial
         | up st' =>
           obtain ⟨h1, h2, h3, h4⟩ := hsafe
-          exact ⟨hdl, Or.inr ⟨⟨h1, h3, rfl, h4⟩, h2⟩⟩
+          exact ⟨⟨by omega, fun _ => hdl⟩, Or.inr ⟨⟨h1, h3, rfl, h4⟩, h2⟩⟩
         | cont st' =>
           obtain ⟨h1, h2, h3, h4, h5, h6⟩ := hsafe
           simp only at h3 h4 h5 h6
           show RdSafe av (rdHttpHeader mode accept f st' (av.drop rem))
-          have := ih st' (av.drop rem) ⟨h1, h2, by
+          have := ih st' (av.drop rem) (by omega) ⟨h1, h2, by
             rw [List.length_append] at h3; simp only [httpCap] at *; omega, h4, h5, h6⟩
           generalize rdHttpHeader mode accept f st' (av.drop rem) = rr at this
           cases rr with
           | oob => exact this
           | rej => trivial
-          | ok pr => exact ⟨by have := this.1; omega, this.2⟩
+          | ok pr => exact ⟨⟨by have := this.1.1; omega, fun _ => by have := this.1.1; omega⟩, this.2⟩
 
 /-! ### memory safety of the whole reader for ALL byte streams (no `hsClean`) -/
 
@@ -180,26 +185,26 @@ theorem safe_of_inv (mode : Mode) (st : St) (a : Abs) (h : WsInv mode st a) : Sa
     exact Or.inl ⟨h1, lfIdx_none _ h2, by omega, h4, h5, h6⟩
   | fr p => exact Or.inr ⟨p, h⟩
 
-def SessSafe (mode : Mode) : List Msg × Sess × Bytes → Prop
+def SessSafe (mode : Mode) (av : Bytes) : List Msg × Sess × Bytes → Prop
   | (_, .oob, _) => False
-  | (_, .open st', _) => Safe mode st'
+  | (_, .open st', av') => Safe mode st' ∧ (av ≠ [] → av'.length < av.length)
   | (_, .closed, _) => True
 
-theorem SessSafe_of_fr (mode : Mode) (X : Bytes) (c : Prop) (p av : Bytes) (res : List Msg × Sess × Bytes)
-    (h : SessFr mode X c p av res) : SessSafe mode res := by
+theorem SessSafe_of_fr (mode : Mode) (X : Bytes) (c : Prop) (p av av1 : Bytes) (res : List Msg × Sess × Bytes)
+    (h : SessFr mode X c p av1 res) (hlt : av ≠ [] → av1.length < av.length) : SessSafe mode av res := by
   obtain ⟨ms, sess, av'⟩ := res
   cases sess with
   | oob => exact h
   | closed => trivial
   | «open» st' =>
     simp only [SessFr] at h
-    obtain ⟨⟨p', hi, _⟩, _⟩ := h
-    exact Or.inr ⟨p', hi⟩
+    obtain ⟨⟨p', hi, _⟩, hle, _⟩ := h
+    exact ⟨Or.inr ⟨p', hi⟩, fun hne => by have := hlt hne; omega⟩
 
 theorem readSession_safe (mode : Mode) (accept : Bytes) (st : St) (av : Bytes) (h : Safe mode st) :
-    SessSafe mode (readSession mode accept (av.length + fsCap + 2) st av) := by
+    SessSafe mode av (readSession mode accept (av.length + fsCap + 2) st av) := by
   rcases h with hs | ⟨p, hinv⟩
-  · have hsafe := rdHttpHeader_safe mode accept (av.length + 2) st av hs
+  · have hsafe := rdHttpHeader_safe mode accept (av.length + 2) st av (by omega) hs
     generalize hrr : rdHttpHeader mode accept (av.length + 2) st av = rr at hsafe
     have hfu : av.length + fsCap + 2 = (av.length + fsCap + 1) + 1 := rfl
     cases rr with
@@ -210,24 +215,24 @@ theorem readSession_safe (mode : Mode) (accept : Bytes) (st : St) (av : Bytes) (
       trivial
     | ok pr =>
       obtain ⟨st', av'⟩ := pr
-      obtain ⟨hle, hcase⟩ := hsafe
+      obtain ⟨⟨hle, hlt⟩, hcase⟩ := hsafe
       rcases hcase with hs' | ⟨hpre, hlen⟩
       · rw [hfu, readSession]
         simp only [wsRead, hs.1, hrr, Bool.not_false, if_true, hs'.1]
-        exact Or.inl hs'
+        exact ⟨Or.inl hs', hlt⟩
       · have hup' := hpre.1
         by_cases h0 : st'.rdHeader.length = 0
         · rw [hfu, readSession]
           simp only [wsRead, hs.1, hrr, Bool.not_false, if_true, hup', Bool.not_true, Bool.false_eq_true, if_false, h0]
           have hnil : st'.rdHeader = [] := List.length_eq_zero_iff.mp h0
-          exact Or.inr ⟨[], Or.inl ⟨by rw [← hnil]; exact hpre, trivial⟩⟩
+          exact ⟨Or.inr ⟨[], Or.inl ⟨by rw [← hnil]; exact hpre, trivial⟩⟩, hlt⟩
         · have hw : wsRead mode accept rxBuf st av = readFrame mode rxBuf (av'.length + fsCap + 2) st' av' := by
             simp only [wsRead, hs.1, hrr, Bool.not_false, if_true, hup', Bool.not_true, Bool.false_eq_true, if_false, h0]
           have hpost : FrPost mode [] (st'.rdHeader.length < fsCap) st'.rdHeader av' (wsRead mode accept rxBuf st av) := by
             rw [hw]; exact readFrame_spec mode [] _ st' av' st'.rdHeader hpre (by omega) (by omega)
           have := readSession_of_post mode accept [] (av.length + fsCap + 1)
             (readSession_fr mode accept [] (av.length + fsCap + 1)) st av st'.rdHeader av' _ hpost (by omega)
-          exact SessSafe_of_fr mode [] _ _ _ _ this
+          exact SessSafe_of_fr mode [] _ _ av av' _ this hlt
   · have := readSession_spec mode accept [] st av (.fr p) hinv trivial
     generalize readSession mode accept (av.length + fsCap + 2) st av = res at this
     obtain ⟨ms, sess, av'⟩ := res
@@ -236,25 +241,26 @@ theorem readSession_safe (mode : Mode) (accept : Bytes) (st : St) (av : Bytes) (
     | closed => trivial
     | «open» st' =>
       simp only [SessPost] at this
-      obtain ⟨⟨a', hi, _⟩, _⟩ := this
-      exact safe_of_inv mode st' a' hi
+      obtain ⟨⟨a', hi, _⟩, _, hlt⟩ := this
+      exact ⟨safe_of_inv mode st' a' hi, hlt⟩
 
 def ChunkSafe (mode : Mode) : List Msg × Sess × Bool → Prop
   | (_, .oob, _) => False
-  | (_, .open st', _) => Safe mode st'
+  | (_, .open st', stuck) => Safe mode st' ∧ stuck = false
   | (_, .closed, _) => True
 
 theorem feedChunk_safe (mode : Mode) (accept : Bytes) : ∀ (fuel idle : Nat) (st : St) (av : Bytes), Safe mode st →
     ChunkSafe mode (feedChunk mode accept fuel idle st av) := by
   intro fuel
   induction fuel with
-  | zero => intro _ st _ h; exact h
+  | zero => intro _ st _ h; exact ⟨h, rfl⟩
   | succ fuel ih =>
     intro idle st av h
     rw [feedChunk]
     by_cases h0 : av.length = 0
-    · rw [if_pos h0]; exact h
+    · rw [if_pos h0]; exact ⟨h, rfl⟩
     · rw [if_neg h0]
+      have hne : av ≠ [] := fun e => h0 (by rw [e]; rfl)
       have hs := readSession_safe mode accept st av h
       generalize readSession mode accept (av.length + fsCap + 2) st av = res at hs
       obtain ⟨ms, sess, av'⟩ := res
@@ -262,28 +268,22 @@ theorem feedChunk_safe (mode : Mode) (accept : Bytes) : ∀ (fuel idle : Nat) (s
       | oob => exact hs.elim
       | closed => trivial
       | «open» st' =>
-        have hrec : ∀ idle', ChunkSafe mode
-            (let r := feedChunk mode accept fuel idle' st' av'; (ms ++ r.1, r.2.1, r.2.2)) := by
-          intro idle'
-          have hr := ih idle' st' av' hs
-          generalize feedChunk mode accept fuel idle' st' av' = r at hr
-          obtain ⟨ms2, sess2, b⟩ := r
-          cases sess2 with
-          | oob => exact hr
-          | closed => trivial
-          | «open» st'' => exact hr
-        simp only
-        split
-        · split
-          · exact hs
-          · exact hrec _
-        · exact hrec _
+        obtain ⟨hsafe, hlt⟩ := hs
+        have hneq : ¬ av'.length = av.length := by have := hlt hne; omega
+        simp only [if_neg hneq]
+        have hr := ih 0 st' av' hsafe
+        generalize feedChunk mode accept fuel 0 st' av' = r at hr
+        obtain ⟨ms2, sess2, b⟩ := r
+        cases sess2 with
+        | oob => exact hr
+        | closed => trivial
+        | «open» st'' => exact hr
 
 theorem feed_safe (mode : Mode) (accept : Bytes) : ∀ (chunks : List Bytes) (st : St), Safe mode st →
     ChunkSafe mode (feed mode accept st chunks) := by
   intro chunks
   induction chunks with
-  | nil => intro st h; exact h
+  | nil => intro st h; exact ⟨h, rfl⟩
   | cons c cs ih =>
     intro st h
     have hc := feedChunk_safe mode accept (6 * (c.length + 1)) 0 st c h
@@ -294,15 +294,14 @@ theorem feed_safe (mode : Mode) (accept : Bytes) : ∀ (chunks : List Bytes) (st
     | oob => exact hc.elim
     | closed => trivial
     | «open» st' =>
-      cases stuck with
-      | true => exact hc
-      | false =>
-        simp only
-        have hr := ih st' hc
-        generalize feed mode accept st' cs = r2 at hr
-        obtain ⟨ms2, sess2, b⟩ := r2
-        cases sess2 with
-        | oob => exact hr
-        | closed => trivial
-        | «open» st'' => exact hr
+      obtain ⟨hsafe, hst⟩ := hc
+      subst hst
+      simp only
+      have hr := ih st' hsafe
+      generalize feed mode accept st' cs = r2 at hr
+      obtain ⟨ms2, sess2, b⟩ := r2
+      cases sess2 with
+      | oob => exact hr
+      | closed => trivial
+      | «open» st'' => exact hr
 end Coap
